@@ -73,7 +73,7 @@ func checkC11(c *Ctx) {
 			}
 			reads := false
 			for _, pc := range tp.p.Calls() {
-				if pc.Is(td.getTopics) && core.Strip(tp.p.Resolve(core.Strip(pc.Common.Args[0]))) == ssa.Value(f.Params[td.sessIdx]) {
+				if pc.Is(td.getTopics) && same(tp.p.Resolve(core.Strip(pc.Common.Args[0])), f.Params[td.sessIdx]) {
 					reads = true
 				}
 			}
